@@ -21,6 +21,7 @@ fn dispatch(ctx: &Ctx) {
         "C12" => vcore::c12::run(ctx),
         "C13" => vcore::c13::run(ctx),
         "C14" => vcore::c14::run(ctx),
+        "C15" => vcore::c15::run(ctx),
         "C18" => vcore::c18::run(ctx),
         "C19" => vcore::c19::run(ctx),
         p => {
